@@ -679,6 +679,10 @@ static char *read_file(char *path) {
     fwrite(buf2, 1, n, out);
   }
 
+  // fread returns 0 on a read error too (e.g. if path is a directory).
+  if (ferror(fp))
+    return NULL;
+
   if (fp != stdin)
     fclose(fp);
 
